@@ -515,13 +515,23 @@ def integrate_strategy(draw):
         "seed": draw(st.integers(0, 2**32 - 1)),
         "dist": draw(st.sampled_from(["normal", "uniform", "int", "ones", "onehot"])),
         "scale": draw(st.sampled_from([1.0, 1.0, 1e-3, 1e3])),
-        "dtype": draw(st.sampled_from(["f8", "f8", "c16"])),
+        # "i8": integer data and a field of integer dtype (after missed seed C12-6: projections forced the
+        # dtype of the field onto the partial integrals)
+        "dtype": draw(st.sampled_from(["f8", "f8", "c16", "i8"])),
         "lead": draw(st.sampled_from([[], [], [2], [3], [2, 2]])),
         "axes_form": draw(st.sampled_from(["tuple", "list", "int"])),
     }
 
 
 def make_data(case, shape):
+    if case["dtype"] == "i8":
+        if case["dist"] == "onehot":
+            a = np.zeros(shape, dtype=np.int64)
+            a.flat[case["seed"] % a.size] = 1
+            return a
+        if case["dist"] == "ones":
+            return np.ones(shape, dtype=np.int64)
+        return np.rint(gg.rng_array(case["seed"], shape, dtype="f8", dist="int", scale=1.0)).astype(np.int64)
     if case["dist"] == "ones":
         return np.ones(shape, dtype=complex if case["dtype"] == "c16" else float)
     if case["dist"] == "onehot":
